@@ -1,6 +1,7 @@
 package main
 
 import (
+	"bufio"
 	"fmt"
 	"net"
 	"sort"
@@ -17,8 +18,9 @@ import (
 
 // C03, L1: a REAL logic.Group driven by direct calls (one call = one critical section of
 // group.mutex), with real session objects over recording conns, a recording IGroupObserver, a hook
-// session as the tap of the pipeline (addIn / delIn / broadcast), and a black-hole TCP listener as
-// the origin of the relay pulls the group starts itself.
+// session as the tap of the pipeline (addIn / delIn / broadcast), and a TCP listener that parks what it
+// accepts as the origin of the relay pulls the group starts itself: the origin answers an attempt only
+// when the scenario says so (LO: lal's rtmp.ServerSession, resp. a few lines of RTSP, on the parked conn).
 //
 //	adm.grp <ev>;<ev>;...   =>   <res>;<observer calls>;<snapshot> | ...
 //
@@ -28,8 +30,14 @@ import (
 //	CP:x Cp:x  AddCustomizePubSession / Del…   CM:x  ctx.FeedRtmpMsg
 //	GP:x       StartRtpPub(port 0)             GK:x  KickSession(ps) and its goroutine's DelPsPubSession
 //	LA:x:r LD:x:r  AddRtmpPullSession / AddRtspPullSession (r=1), Del…PullSession with a harness pull session
-//	LS:retry:nid   StartPull (url → black hole)   LF  the parked attempt fails (its Start returns an error)
+//	               (never the session the group is waiting for: refused with ErrDupInStream or errRelayPullStopped)
+//	LS:retry:nid[:1]  StartPull (rtmp url, rtsp url with :1 → the parked origin)
+//	LO  the origin answers the oldest attempt it has not answered yet: the attempt's own goroutine calls
+//	    AddRtmpPullSession / AddRtspPullSession (ok), or is refused and ends (DelXxxPullSession, "refused")
+//	LF  the oldest attempt (attached or not) ends: its connection is closed, its goroutine calls Del…PullSession
 //	LT  StopPull   RS:x:nid Rs:x  rtmp sub   SD:x SY:x:nid Ss:x  rtsp sub (describe, play, del)
+//	    (LT / K that dispose the attached pull session: the harness waits for that session's goroutine to
+//	    call Del…PullSession; the two critical sections are one event)
 //	K:x KickSession   T:nid Tick   D Dispose
 type c03Obs struct {
 	mu  sync.Mutex
@@ -74,54 +82,45 @@ func (h c03Hook) OnMsg(msg base.RtmpMsg) {
 }
 func (h c03Hook) OnStop() { h.o.add("hp") }
 
-// c03BlackHole accepts TCP connections and parks them until told to close them.
-type c03BlackHole struct {
-	ln    net.Listener
-	mu    sync.Mutex
-	conns []net.Conn
+// c03Att is one relay-pull attempt the group started itself, parked at the origin.
+type c03Att struct {
+	h        string // handle (= the model's identity of the pull session)
+	rtsp     bool
+	conn     net.Conn            // origin side
+	sess     *rtmp.ServerSession // rtmp origin session once the origin answers
+	answered bool
 }
 
-func c03NewBlackHole() *c03BlackHole {
-	ln, err := net.Listen("tcp", "127.0.0.1:0")
-	if err != nil {
-		panic(err)
-	}
-	b := &c03BlackHole{ln: ln}
-	go func() {
+// c03RtspOrigin answers OPTIONS and DESCRIBE and nothing after: the pull session gets its SDP
+// (OnDescribeResponse → AddRtspPullSession) and then stays in its handshake until the connection ends.
+func c03RtspOrigin(conn net.Conn) {
+	r := bufio.NewReader(conn)
+	for {
+		method, cseq := "", ""
 		for {
-			c, err := ln.Accept()
+			line, err := r.ReadString('\n')
 			if err != nil {
 				return
 			}
-			b.mu.Lock()
-			b.conns = append(b.conns, c)
-			b.mu.Unlock()
+			line = strings.TrimRight(line, "\r\n")
+			if line == "" {
+				break
+			}
+			if method == "" {
+				method = strings.Fields(line)[0]
+			}
+			if strings.HasPrefix(strings.ToLower(line), "cseq:") {
+				cseq = strings.TrimSpace(line[5:])
+			}
 		}
-	}()
-	return b
-}
-func (b *c03BlackHole) n() int {
-	b.mu.Lock()
-	defer b.mu.Unlock()
-	return len(b.conns)
-}
-func (b *c03BlackHole) closeConns() {
-	b.mu.Lock()
-	for _, c := range b.conns {
-		_ = c.Close()
+		switch method {
+		case "OPTIONS":
+			_, _ = conn.Write([]byte("RTSP/1.0 200 OK\r\nCSeq: " + cseq + "\r\nPublic: DESCRIBE, SETUP, PLAY\r\n\r\n"))
+		case "DESCRIBE":
+			_, _ = conn.Write([]byte(fmt.Sprintf("RTSP/1.0 200 OK\r\nCSeq: %s\r\nContent-Type: application/sdp\r\nContent-Length: %d\r\n\r\n%s", cseq, len(c03Sdp), c03Sdp)))
+		}
 	}
-	b.conns = nil
-	b.mu.Unlock()
 }
-func (b *c03BlackHole) closeOldest() {
-	b.mu.Lock()
-	if len(b.conns) > 0 {
-		_ = b.conns[0].Close()
-		b.conns = b.conns[1:]
-	}
-	b.mu.Unlock()
-}
-func (b *c03BlackHole) port() int { return b.ln.Addr().(*net.TCPAddr).Port }
 
 func c03Wait(what string, cond func() bool) {
 	deadline := time.Now().Add(5 * time.Second)
@@ -144,7 +143,7 @@ func (c03NullRtspObs) OnNewRtspSubSessionPlay(session *rtsp.SubSession) error { 
 type c03L1 struct {
 	g       *logic.Group
 	obs     *c03Obs
-	hole    *c03BlackHole
+	origin  *c03Origin
 	name    map[string]string // unique key -> handle
 	rtmpS   map[string]*rtmp.ServerSession
 	rtspP   map[string]*rtsp.PubSession
@@ -153,7 +152,7 @@ type c03L1 struct {
 	pullR   map[string]*rtmp.PullSession
 	pullS   map[string]*rtsp.PullSession
 	key     map[string]string // handle -> unique key
-	pending []string          // handles of the attempts the group started itself and that are parked, oldest first
+	pending []*c03Att         // the attempts the group started itself and that have not ended, oldest first
 	dead    bool
 }
 
@@ -174,6 +173,7 @@ func (l *c03L1) h(key string) string {
 
 func (l *c03L1) snapshot() string {
 	st := l.g.VerifAdmission()
+	rl := l.g.VerifRelayState()
 	subs := func(keys []string) string {
 		var ns []int
 		var bad []string
@@ -197,19 +197,51 @@ func (l *c03L1) snapshot() string {
 		}
 		return "0"
 	}
-	return fmt.Sprintf("r%s s%s c%s g%s lr%s ls%s p%s e%s n%d h%s rs[%s] ss[%s] ia%s",
+	return fmt.Sprintf("r%s s%s c%s g%s lr%s ls%s p%s u%s e%s n%d h%s rs[%s] ss[%s] ia%s",
 		l.h(st.RtmpPub), l.h(st.RtspPub), l.h(st.CustomizePub), l.h(st.PsPub), l.h(st.RtmpPull), l.h(st.RtspPull),
-		b(st.IsSessionPulling), b(st.ApiEnable), st.StartCount, b(st.HookAlive), subs(st.RtmpSubs), subs(st.RtspSubs),
+		b(st.IsSessionPulling), l.h(rl.PullingSessionUk), b(st.ApiEnable), st.StartCount, b(st.HookAlive), subs(st.RtmpSubs), subs(st.RtspSubs),
 		b(l.g.IsInactive()))
 }
 
 // spawnCheck: did this event make the group start a pull attempt of its own? (then nid names it)
-func (l *c03L1) spawnCheck(before logic.VerifAdmissionState, holeBefore int, nid string) {
+func (l *c03L1) spawnCheck(before logic.VerifAdmissionState, originBefore int, nid string) {
 	after := l.g.VerifAdmission()
 	if !before.IsSessionPulling && after.IsSessionPulling && after.StartCount == before.StartCount+1 {
-		l.pending = append(l.pending, nid)
-		// the attempt's goroutine dials the black hole; wait until it is parked there
-		c03Wait("pull attempt to reach the origin", func() bool { return l.hole.n() > holeBefore })
+		rl := l.g.VerifRelayState()
+		if _, ok := l.key[nid]; !ok {
+			l.bind(nid, rl.PullingSessionUk)
+		}
+		// the attempt's goroutine dials the origin; wait until it is parked there
+		c03Wait("pull attempt to reach the origin", func() bool { return l.origin.count() > originBefore })
+		l.pending = append(l.pending, &c03Att{h: nid, rtsp: !strings.HasPrefix(rl.PullUrl, "rtmp"), conn: l.origin.take(originBefore)})
+	}
+}
+
+func (l *c03L1) drop(a *c03Att) {
+	for i, p := range l.pending {
+		if p == a {
+			l.pending = append(l.pending[:i:i], l.pending[i+1:]...)
+			break
+		}
+	}
+	// only the raw connection is closed: the origin session ends in its own goroutine. (Dispose() from here can
+	// race with the session's doPlay → naza ModWriteChanSize, which publishes WriteChanSize before exitChan
+	// exists; connection.close then blocks for ever on the nil channel.)
+	_ = a.conn.Close()
+}
+
+// disposed: StopPull / KickSession named session `key`. If it was the attached pull session it has been
+// disposed, and its goroutine (one of the group's own attempts) now calls Del…PullSession: wait for that.
+func (l *c03L1) disposed(before logic.VerifAdmissionState, key string, rp0 int) {
+	if key == "" || (before.RtmpPull != key && before.RtspPull != key) {
+		return
+	}
+	for _, a := range l.pending {
+		if l.key[a.h] == key {
+			c03Wait("relay pull stop of the disposed pull session", func() bool { return l.obs.count("rp") > rp0 })
+			l.drop(a)
+			return
+		}
 	}
 }
 
@@ -227,7 +259,7 @@ func c03Msg() base.RtmpMsg {
 func (l *c03L1) step(f []string) string {
 	g := l.g
 	res := "-"
-	arrival := map[string]bool{"RP": true, "SP": true, "CP": true, "GP": true, "LA": true, "LS": true, "RS": true, "SD": true, "SY": true, "T": true, "D": true}
+	arrival := map[string]bool{"RP": true, "SP": true, "CP": true, "GP": true, "LA": true, "LS": true, "LO": true, "RS": true, "SD": true, "SY": true, "T": true, "D": true}
 	if l.dead && arrival[f[0]] {
 		return "na"
 	}
@@ -241,7 +273,8 @@ func (l *c03L1) step(f []string) string {
 		return "err"
 	}
 	before := g.VerifAdmission()
-	holeBefore := l.hole.n()
+	originBefore := l.origin.count()
+	rp0 := l.obs.count("rp")
 	switch f[0] {
 	case "RP":
 		s := rtmp.NewServerSession(nil, newRecConn())
@@ -340,8 +373,12 @@ func (l *c03L1) step(f []string) string {
 		if f[1] != "f" {
 			retry = atoi(f[1])
 		}
+		scheme := "rtmp"
+		if len(f) > 3 && f[3] == "1" {
+			scheme = "rtsp"
+		}
 		uk, err := g.StartPull(base.ApiCtrlStartRelayPullReq{
-			Url:                      fmt.Sprintf("rtmp://127.0.0.1:%d/live/s", l.hole.port()),
+			Url:                      fmt.Sprintf("%s://127.0.0.1:%d/live/s", scheme, l.origin.port()),
 			PullTimeoutMs:            0,
 			PullRetryNum:             retry,
 			AutoStopPullAfterNoOutMs: base.AutoStopPullAfterNoOutMsNever,
@@ -352,35 +389,53 @@ func (l *c03L1) step(f []string) string {
 		} else {
 			res = "fail"
 		}
-		l.spawnCheck(before, holeBefore, f[2])
+		l.spawnCheck(before, originBefore, f[2])
+	case "LO":
+		var a *c03Att
+		for _, p := range l.pending {
+			if !p.answered {
+				a = p
+				break
+			}
+		}
+		if a == nil {
+			res = "na"
+			break
+		}
+		a.answered = true
+		rs0 := l.obs.count("rs")
+		if a.rtsp {
+			go c03RtspOrigin(a.conn)
+		} else {
+			a.sess = rtmp.NewServerSession(l.origin, a.conn)
+			go func(s *rtmp.ServerSession) { _ = s.RunLoop() }(a.sess)
+		}
+		c03Wait("the answered attempt to attach or to end", func() bool { return l.obs.count("rs") > rs0 || l.obs.count("rp") > rp0 })
+		if l.obs.count("rs") > rs0 {
+			res = "ok"
+		} else {
+			res = "refused"
+			l.drop(a)
+		}
 	case "LF":
 		if len(l.pending) == 0 {
 			res = "na"
 		} else {
-			n := l.obs.count("rp")
-			l.hole.closeOldest()
-			c03Wait("relay pull stop of the failed attempt", func() bool { return l.obs.count("rp") > n })
-			// bind the attempt's key if StartPull did not return it (started by a subscriber or the tick)
-			l.obs.mu.Lock()
-			for _, e := range l.obs.evs {
-				if strings.HasPrefix(e, "rp") {
-					if _, ok := l.name[e[2:]]; !ok {
-						l.name[e[2:]] = l.pending[0]
-						l.key[l.pending[0]] = e[2:]
-					}
-				}
-			}
-			l.obs.mu.Unlock()
-			l.pending = l.pending[1:]
+			a := l.pending[0]
+			_ = a.conn.Close()
+			c03Wait("relay pull stop of the ended attempt", func() bool { return l.obs.count("rp") > rp0 })
+			l.drop(a)
 		}
 	case "LT":
-		res = "id" + l.h(g.StopPull())
+		id := g.StopPull()
+		res = "id" + l.h(id)
+		l.disposed(before, id, rp0)
 	case "RS":
 		s := rtmp.NewServerSession(nil, newRecConn())
 		l.rtmpS[f[1]] = s
 		l.bind(f[1], s.UniqueKey())
 		g.AddRtmpSubSession(s)
-		l.spawnCheck(before, holeBefore, f[2])
+		l.spawnCheck(before, originBefore, f[2])
 	case "Rs":
 		if s, ok := l.rtmpS[f[1]]; ok {
 			g.DelRtmpSubSession(s)
@@ -399,7 +454,7 @@ func (l *c03L1) step(f []string) string {
 	case "SY":
 		if s, ok := l.rtspS[f[1]]; ok {
 			g.HandleNewRtspSubSessionPlay(s)
-			l.spawnCheck(before, holeBefore, f[2])
+			l.spawnCheck(before, originBefore, f[2])
 		} else {
 			res = "na"
 		}
@@ -416,12 +471,13 @@ func (l *c03L1) step(f []string) string {
 		}
 		if g.KickSession(key) {
 			res = "true"
+			l.disposed(before, key, rp0)
 		} else {
 			res = "false"
 		}
 	case "T":
 		g.Tick(1)
-		l.spawnCheck(before, holeBefore, f[1])
+		l.spawnCheck(before, originBefore, f[1])
 	case "D":
 		g.Dispose()
 		l.dead = true
@@ -435,14 +491,14 @@ func c03RunGrp(evS string) string {
 	obs := &c03Obs{}
 	var lc logic.Config
 	l := &c03L1{
-		obs: obs, hole: c03NewBlackHole(),
+		obs: obs, origin: c03NewOrigin(),
 		name: map[string]string{}, key: map[string]string{},
 		rtmpS: map[string]*rtmp.ServerSession{}, rtspP: map[string]*rtsp.PubSession{}, rtspS: map[string]*rtsp.SubSession{},
 		cust: map[string]logic.ICustomizePubSessionContext{}, pullR: map[string]*rtmp.PullSession{}, pullS: map[string]*rtsp.PullSession{},
 	}
 	defer func() {
-		_ = l.hole.ln.Close()
-		l.hole.closeConns()
+		_ = l.origin.ln.Close()
+		l.origin.closeAll()
 	}()
 	opt := logic.VerifGroupOption(func(uniqueKey string, streamName string) logic.ICustomizeHookSessionContext {
 		obs.add("hs" + uniqueKey)
